@@ -23,6 +23,9 @@ func ByDate(fallbackSort NameSorter) NameSorter {
 				d0, err0 := time.Parse(format, a)
 				d1, err1 := time.Parse(format, b)
 				if err0 == nil && err1 == nil {
+					if d0.Equal(d1) {
+						return a < b // Same instant spelled differently
+					}
 					return d0.Before(d1)
 				} else {
 					fallback = true
